@@ -170,3 +170,29 @@ Definition fed_drive (c : cfg) (events history : nat) (dels : list nat) (failing
   end.
 
 Definition fed_drive_pinned := fed_drive pinned_cfg.
+
+(** * Shutdown while events are still travelling
+
+    [Hub.Start] returns when the context is cancelled ([AStop]); the brokers know nothing about
+    that: stores keep emitting, the delivery goroutines keep calling [hub.Dispatch] /
+    [hub.Delete], somebody may still call [hub.Sync]. *)
+Inductive fact3 :=
+| F3 (a : fact2)
+| F3Stop                 (* the hub goroutine sees ctx.Done *)
+| F3Sync (tok : nat).    (* a caller of hub.Sync submits its op *)
+
+Definition with_hub (s : fed2) (h : hub) : fed2 :=
+  mkFed2 (mkFed (fb_pend (f2 s)) (fb_running (f2 s)) h) (fd_pend s) (fd_running s).
+
+Definition fstep3 (c : cfg) (s : fed2) (a : fact3) : option fed2 :=
+  match a with
+  | F3 a' => fstep2 c s a'
+  | F3Stop => match step c (fh (f2 s)) AStop with Some h => Some (with_hub s h) | None => None end
+  | F3Sync tok => match step c (fh (f2 s)) (AEnq (OSync tok)) with Some h => Some (with_hub s h) | None => None end
+  end.
+
+Fixpoint frun3 (c : cfg) (s : fed2) (sched : list fact3) : option fed2 :=
+  match sched with
+  | [] => Some s
+  | a :: t => match fstep3 c s a with None => None | Some s' => frun3 c s' t end
+  end.
